@@ -2743,7 +2743,10 @@ primary_expression
           {
             case OBJECT_TYPE_INTEGER:
               $$.type = EXPRESSION_TYPE_INTEGER;
-              $$.value.integer = $1.value.object->value.i;
+              // The value of an object is not known until scan time. External
+              // variables do have a value while compiling, but it can be
+              // changed afterwards, so it must not be used as a constant.
+              $$.value.integer = YR_UNDEFINED;
               break;
             case OBJECT_TYPE_FLOAT:
               $$.type = EXPRESSION_TYPE_FLOAT;
